@@ -77,7 +77,14 @@ pub fn sentinel_cm() -> credential_management::Response {
 }
 pub fn sentinel_lb() -> large_blobs::Response {
     let mut r = large_blobs::Response::default();
-    r.config = Some(ctap_types::Bytes::new());
+    // filled to capacity with a pattern (capacity 0 without large-blobs): a dispatcher that cuts,
+    // pads or rewrites the handler's answer shows
+    let mut cfg = ctap_types::Bytes::new();
+    let mut i = 0u32;
+    while cfg.push((i % 251) as u8).is_ok() {
+        i += 1;
+    }
+    r.config = Some(cfg);
     r
 }
 pub fn sentinel_gi() -> get_info::Response {
